@@ -205,6 +205,10 @@ pub fn run(ctx: &mut Ctx) {
                     if !ctx.mine(idx) || !ctx.want(idx) {
                         continue;
                     }
+                    // (the interpreter is ~10^4 times slower: a sample of the family)
+                    if cfg!(miri) && idx % 97 != 0 {
+                        continue;
+                    }
                     let mut v = chars.clone();
                     if insert {
                         v.insert(pos, c);
